@@ -62,6 +62,9 @@ class C09(Prop):
             for s in names:
                 tabs = [T.gen_table(rng, sep="\x00", bigint=False, odd=False, excel=True, empty_rate=0.05) for _ in range(rng.choice([1, 1, 2, 3]))]
                 ok = ok and all(excel_ok(t) for t in tabs)
+                for t in tabs:
+                    if rng.random() < 0.2:
+                        t["index"] = rng.choice(T.INDEX_KINDS)
                 sheets.append([s, tabs])
             if not ok:
                 continue
